@@ -215,8 +215,12 @@ func (d *driver) pureUnits(name string, vecs [][]uint64) {
 	d.part(name, int64(len(units)), func(_ int, idx int64) {
 		u := units[idx]
 		keys := map[string]struct{}{}
-		for _, s := range seeds {
-			for _, id := range ids {
+		_, fits := refTotal(u.ws)
+		for si, s := range seeds {
+			for ii, id := range ids {
+				if !fits && (si > 0 || ii > 0) {
+					continue // an unrepresentable total is rejected before the first draw: one (seed, id) pair suffices
+				}
 				var cases []Case
 				if u.cnt == 1 {
 					cases = append(cases, Case{Kind: "pure", Fn: "one", Weights: u.ws, Cnt: 1, Seed: s, ID: id, ChainID: engine.ChainID})
@@ -248,7 +252,9 @@ func (d *driver) runPure(quick bool, nMax int) {
 	}
 	d.pureUnits(fmt.Sprintf("pure:n<=%d", nMax), vecs)
 	d.pureUnits("pure:extras-near-2^64", pureExtras)
-	if !quick {
+	if quick {
+		d.pureUnits("pure:n=5:reduced-alphabet", vectors([]uint64{1, 3, 1_000_000, w62, w63}, 5))
+	} else {
 		var wide [][]uint64
 		for n := 1; n <= 5; n++ {
 			wide = append(wide, vectors(pureAlphabetWide, n)...)
